@@ -567,3 +567,70 @@ Proof.
   pose proof (page_safe_sound tpls name Hs d2 p2 E2) as W2.
   destruct (flat_run p2 p2 SData SData (same_shape_refl p2) W2) as [_ H2]. exact H2.
 Qed.
+
+(* ------------------------------------------------------------------------------------------ *)
+(** * The redirect note of net/http *)
+
+Lemma net_escape_chars s c : In c (net_escape s) -> c <> 34 /\ c <> 39 /\ c <> 60 /\ c <> 62.
+Proof.
+  induction s as [|x r IH]; cbn [net_escape]; [intros []|].
+  unfold net_repl.
+  destruct (N.eqb_spec x 38) as [->|N1]; [cbn; intros [<-|[<-|[<-|[<-|[<-|H]]]]]; try (repeat split; discriminate); auto|].
+  destruct (N.eqb_spec x 60) as [->|N2]; [cbn; intros [<-|[<-|[<-|[<-|H]]]]; try (repeat split; discriminate); auto|].
+  destruct (N.eqb_spec x 62) as [->|N3]; [cbn; intros [<-|[<-|[<-|[<-|H]]]]; try (repeat split; discriminate); auto|].
+  destruct (N.eqb_spec x 34) as [->|N4]; [cbn; intros [<-|[<-|[<-|[<-|[<-|H]]]]]; try (repeat split; discriminate); auto|].
+  destruct (N.eqb_spec x 39) as [->|N5]; [cbn; intros [<-|[<-|[<-|[<-|[<-|H]]]]]; try (repeat split; discriminate); auto|].
+  cbn. intros [<-|H]; [repeat split; assumption | auto].
+Qed.
+
+(* whatever the URL, the note is one anchor element with one href attribute, and ends in the
+   data state: request text in a redirect target cannot add an element or attribute *)
+Lemma run_app_proj st a b :
+  run st (a ++ b) = (fst (run (fst (run st a)) b), snd (run st a) ++ snd (run (fst (run st a)) b)).
+Proof. rewrite run_app. destruct (run st a) as [s1 e1]. cbn [fst snd]. destruct (run s1 b). reflexivity. Qed.
+
+Lemma redirect_note_inert text : ~ In 60 text ->
+  forall u1 u2, skeleton (redirect_note u1 text) = skeleton (redirect_note u2 text) /\
+                final_state (redirect_note u1 text) = SData.
+Proof.
+  intros Ht.
+  assert (P : run SData note_pre =
+      (SValDq false [97] [104;114;101;102],
+       [EvOpen false; EvName 97; EvAttr; EvAttrCh 104; EvAttrCh 114; EvAttrCh 101; EvAttrCh 102; EvValOpen 34]))
+    by reflexivity.
+  assert (M : run (SValDq false [97] [104;114;101;102]) note_mid = (SData, [EvValClose; EvTagEnd])) by reflexivity.
+  assert (Q : run SData note_post = (SData, [EvOpen true; EvName 97; EvTagEnd])) by reflexivity.
+  assert (G : forall u, run SData (redirect_note u text) =
+              (SData, snd (run SData note_pre) ++ [EvValClose; EvTagEnd] ++ snd (run SData note_post))).
+  { intros u. unfold redirect_note.
+    rewrite run_app_proj, P. cbn [fst snd].
+    rewrite run_app_proj, inert_dq by (intros H; apply net_escape_chars in H; tauto). cbn [fst snd].
+    rewrite run_app_proj, M. cbn [fst snd].
+    rewrite run_app_proj, (inert_data text Ht). cbn [fst snd].
+    rewrite Q. cbn [fst snd app]. reflexivity. }
+  intros u1 u2. unfold skeleton, final_state. rewrite !G. split; reflexivity.
+Qed.
+
+Lemma strip_pre_app p s : strip_pre p (p ++ s) = Some s.
+Proof. induction p as [|c p IH]; [reflexivity|]. cbn. rewrite N.eqb_refl. exact IH. Qed.
+
+Lemma strip_suffix_rev_app p s : strip_suffix_rev (p ++ s) p = Some s.
+Proof. induction p as [|c p IH]; [reflexivity|]. cbn. rewrite N.eqb_refl. exact IH. Qed.
+
+Lemma note_url_of_note url text : note_url (redirect_note url text) text = Some (net_escape url).
+Proof.
+  unfold note_url, redirect_note. rewrite strip_pre_app.
+  rewrite rev_app_distr. rewrite strip_suffix_rev_app. rewrite rev_involutive. reflexivity.
+Qed.
+
+(* decoding the references of the escaped URL gives the URL back *)
+Lemma html_unescape_net_escape : forall s, html_unescape (net_escape s) = s.
+Proof.
+  induction s as [|c r IH]; [reflexivity|]. cbn [net_escape]. unfold net_repl.
+  destruct (N.eqb_spec c 38) as [->|N1]; [cbn; rewrite IH; reflexivity|].
+  destruct (N.eqb_spec c 60) as [->|N2]; [cbn; rewrite IH; reflexivity|].
+  destruct (N.eqb_spec c 62) as [->|N3]; [cbn; rewrite IH; reflexivity|].
+  destruct (N.eqb_spec c 34) as [->|N4]; [cbn; rewrite IH; reflexivity|].
+  destruct (N.eqb_spec c 39) as [->|N5]; [cbn; rewrite IH; reflexivity|].
+  cbn [html_unescape]. rewrite (neq_eqb _ _ N1), IH. reflexivity.
+Qed.
